@@ -71,6 +71,24 @@ def _assigns(f, ops=("=",)):
     return [n for n in walk(f.body) if n["k"] in ("BinaryOperator", "CompoundAssignOperator") and n.get("op") in ops]
 
 
+_SUBS = {}
+
+
+def _subs(f):
+    if f.key not in _SUBS:
+        _SUBS[f.key] = local_inits(f)
+    return _SUBS[f.key]
+
+
+def _resolve(f, n, depth=0):
+    """follow single-definition locals (const Real pivot = LU(k, k)) to their initialiser"""
+    n = strip(n)
+    while n is not None and n["k"] == "DeclRefExpr" and n["decl"]["kind"] == "local" and n["decl"]["id"] in _subs(f) and depth < 4:
+        n = strip(_subs(f)[n["decl"]["id"]])
+        depth += 1
+    return n
+
+
 def _elem(n):
     """(container text, [index texts]) of M(a, b) / v[a]"""
     n = strip(n)
@@ -80,10 +98,15 @@ def _elem(n):
 
 
 def _el(f, n):
-    c = _elem(n)
+    c = _elem(_resolve(f, n))
     if c is None:
         return None
     return (render(f.obj(c)), [render(a) for a in f.args(c)])
+
+
+def _R(f, n):
+    """rendering with single-definition locals replaced by their initialisers"""
+    return render(n, _subs(f))
 
 
 # ------------------------------------------------------------------------------------------------ D0 / D1
@@ -192,6 +215,8 @@ def _d2(chk, fb, M):
     f = M["solve"]
     cfg = f.cfg
     throws = [n for n in walk(f.body) if n["k"] == "CXXThrowExpr"]
+    retn = {render(kids(r)[0]) for r in walk(f.body) if r["k"] == "ReturnStmt" and kids(r)}
+    IND = retn.pop() if len(retn) == 1 else "minD"        # the indicator: what solve returns
     bname = f.params[0]["name"]
     xname = f.params[1]["name"]
     height, sing = None, None
@@ -204,7 +229,7 @@ def _d2(chk, fb, M):
         ty = render(t)
         if bname + ".getNumberOfRows()" in txt:
             height = (t, cond, txt)
-        elif "SMALL" in txt or "minD" in txt or "ZeroDivisionException" in ty:
+        elif "SMALL" in txt or IND in txt or "ZeroDivisionException" in ty:
             sing = (t, cond, txt)
     uses = [c for c in f.calls() if c["callee"]["name"] == "permuteCopy"]
     xw = [n for n in _assigns(f, ("=", "-=", "/=", "+=", "*=")) if (_el(f, kids(n)[0]) or ("", []))[0] == xname]
@@ -242,8 +267,8 @@ def _d2(chk, fb, M):
                 ok, why = False, "the height test is '%s'; it must refuse every B whose row count differs from m" % txt
         else:
             c = cond
-            if c["k"] != "BinaryOperator" or c["op"] not in ("<", "<=") or render(kids(c)[0]) != "minD" or "SMALL" not in render(kids(c)[1]):
-                if c["k"] == "BinaryOperator" and c["op"] in (">", ">=") and render(kids(c)[1]) == "minD" and "SMALL" in render(kids(c)[0]):
+            if c["k"] != "BinaryOperator" or c["op"] not in ("<", "<=") or render(kids(c)[0]) != IND or "SMALL" not in render(kids(c)[1]):
+                if c["k"] == "BinaryOperator" and c["op"] in (">", ">=") and render(kids(c)[1]) == IND and "SMALL" in render(kids(c)[0]):
                     pass
                 else:
                     ok, why = False, "the singularity test is '%s'; the documented rule is: smallest pivot magnitude below NumConstants::SMALL() raises ZeroDivisionException" % txt
@@ -262,7 +287,15 @@ def _d3(chk, fb, M):
     f = M["ctor"]
     cfg = f.cfg
     pw = [n for n in _assigns(f) if (_el(f, kids(n)[0]) or ("", []))[0] == "piv"]
-    if len(pw) < 3:
+    iotas = [c for c in f.calls() if c["callee"]["qname"] == "std::iota" and len(f.args(c)) == 3 and render(f.args(c)[0]) == "piv.begin()" and render(f.args(c)[1]) == "piv.end()"]
+    swapcalls = [c for c in f.calls() if c["callee"]["qname"] in ("std::swap", "std::iter_swap") and len(f.args(c)) == 2 and all((_el(f, a) or ("", []))[0] == "piv" for a in f.args(c))]
+    for c in iotas:
+        start = render(f.args(c)[2]).replace("size_t(0)", "0").replace("(unsigned long)0", "0")
+        if start in ("0", "0UL", "0U"):
+            chk.proved("D3", f.key, "piv-identity", f.loc(c), "std::iota(piv.begin(), piv.end(), 0)")
+        else:
+            chk.refuted("D3", f.key, "piv-identity", f.loc(c), "the pivot vector is initialised by std::iota starting at %s, not at 0" % start, witness={"input": "any matrix that needs no exchange"})
+    if len(pw) + len(iotas) + len(swapcalls) < 2:
         raise AnalysisBroken("anchor vanished: writes to piv in the constructor (%d)" % len(pw))
     # permutation discipline: piv[x] = x (identity fill) | piv[a] = piv[b] | piv[a] = t with t initialised from piv[..]
     subs = local_inits(f)
@@ -292,6 +325,10 @@ def _d3(chk, fb, M):
     for w, a, b in swaps:
         iff = f.enclosing(w, ("IfStmt",))
         blocks.setdefault(iff["id"] if iff else None, []).append((w, a, b))
+    for c in swapcalls:
+        a_, b_ = [(_el(f, x))[1][0] for x in f.args(c)]
+        iff = f.enclosing(c, ("IfStmt",))
+        blocks.setdefault(iff["id"] if iff else None, []).extend([(c, a_, b_), (c, b_, a_)])
     flips = [n for n in _assigns(f) if render(kids(n)[0]) == "pivsign"]
     chk.floor("D3", "exchange blocks in the constructor", len(blocks), 1)
     for bid, ws in blocks.items():
@@ -368,25 +405,46 @@ def _d3(chk, fb, M):
             chk.refuted("D3", f.key, "row-exchange", f.loc(ws[0][0]), detail, witness={"input": "[[1,2,3],[4,5,6],[7,8,10]] (exchanges at k = 0 and k = 1)"})
     # det uses the sign
     d = M["det"]
-    inits = []
-    for n in walk(d.body):
-        if n["k"] == "DeclStmt":
-            for dd in n["decls"]:
-                if dd.get("init") is not None and dd["ty"] == "double":
-                    inits.append((dd["name"], render(dd["init"])))
     acc = [n for n in _assigns(d, ("*=",))]
-    rets = [n for n in walk(d.body) if n["k"] == "ReturnStmt"]
-    ok = False
-    for nm, it in inits:
-        if "pivsign" in it and "-" not in it:
-            diag = [a for a in acc if render(kids(a)[0]) == nm and (_el(d, kids(a)[1]) or ("", ["", "x"]))[0] == "LU" and len(set((_el(d, kids(a)[1]))[1])) == 1]
-            if diag and any(render(kids(r)[0]) == nm for r in rets if kids(r)):
-                ok = True
+    rets = [n for n in walk(d.body) if n["k"] == "ReturnStmt" and kids(n)]
+    ok = None
+    accname = None
+    for a in acc:
+        e = _el(d, kids(a)[1])
+        if e and e[0] == "LU" and len(set(e[1])) == 1:
+            accname = render(kids(a)[0])
+    if accname is None:
+        ok = None
+        why = "no 'x *= LU(j, j)' accumulation recognised"
+    else:
+        defs = []
+        for n in walk(d.body):
+            if n["k"] == "DeclStmt":
+                for dd in n["decls"]:
+                    if dd["name"] == accname and dd.get("init") is not None:
+                        defs.append(render(dd["init"]))
+        defs += [render(kids(a)[1]) for a in _assigns(d) if render(kids(a)[0]) == accname]
+        signdefs = [t for t in defs if "pivsign" in t]
+        returned = any(render(kids(r)[0]) == accname for r in rets)
+        # the definition that feeds the product must carry the sign (a neutral 0 / Real(0) default for the non-square case is fine)
+        feeding = [t for t in defs if t.replace("double(", "").replace(")", "").replace(".0", "") not in ("0",)]
+        if signdefs and returned and all("pivsign" in t and "-" not in t for t in feeding):
+            ok = True
+        elif returned and feeding and not signdefs:
+            ok = False
+            why = "the product of the diagonal starts from %s: the sign of the row permutation is not applied" % feeding
+        elif any("-pivsign" in t.replace(" ", "") for t in feeding):
+            ok = False
+            why = "the product starts from the negated permutation sign (%s)" % feeding
+        else:
+            ok = None
+            why = "definitions of '%s': %s" % (accname, defs)
     if ok:
         chk.proved("D3", d.key, "det-sign", d.loc(), "det() = pivsign x product of LU(j, j)")
+    elif ok is False:
+        chk.refuted("D3", d.key, "det-sign", d.loc(), "det() is not 'sign of the row permutation times the product of the diagonal': %s" % why, witness={"input": "[[0,1],[1,0]]"})
     else:
-        chk.refuted("D3", d.key, "det-sign", d.loc(), "det() is not 'sign of the row permutation times the product of the diagonal' (initialisers %s, accumulation %s)" % (inits, [render(a) for a in acc]),
-                    witness={"input": "[[0,1],[1,0]]"})
+        chk.unknown("D3", d.key, "det-sign", d.loc(), why)
     if ok:
         from . import e2 as _e2
         fun = _e2.Fun(fb, d)
@@ -439,16 +497,43 @@ def _d4(chk, fb, M):
 
 def _d5(chk, fb, M):
     from . import e2
-    f = M["solve"]
-    subs = local_inits(f)
+    solve = M["solve"]
+    rets0 = [n for n in walk(solve.body) if n["k"] == "ReturnStmt" and kids(n)]
+    names = {render(kids(r)[0]) for r in rets0}
+    if len(names) != 1:
+        chk.unknown("D5", solve.key, "returns-indicator", solve.loc(), "solve returns %s" % sorted(names))
+        return
+    V = names.pop()
+    f = solve
     dn = None
     for n in walk(f.body):
         if n["k"] == "DeclStmt":
             for d in n["decls"]:
-                if d["name"] == "minD":
+                if d["name"] == V:
                     dn = d
     if dn is None or dn.get("init") is None:
-        raise AnalysisBroken("anchor vanished: minD in solve")
+        chk.unknown("D5", solve.key, "returns-indicator", solve.loc(), "what solve returns ('%s') is not a local with an initialiser" % V)
+        return
+    # the scan may live in a helper of the class: analyse the helper, with the variable it returns
+    i0 = strip(dn["init"])
+    if is_call(i0) and i0["callee"].get("inrepo") and i0["callee"].get("cls") == LU and not f.args(i0):
+        ts = [t for t in fb.targets(i0) if t.body is not None]
+        if ts:
+            g = ts[0]
+            rn = {render(kids(r)[0]) for r in walk(g.body) if r["k"] == "ReturnStmt" and kids(r)}
+            if len(rn) == 1:
+                chk.proved("D5", solve.key, "returns-indicator", solve.loc(), "solve returns %s = %s(), analysed in its place" % (V, g.name))
+                f, V = g, rn.pop()
+                dn = None
+                for n in walk(f.body):
+                    if n["k"] == "DeclStmt":
+                        for d in n["decls"]:
+                            if d["name"] == V:
+                                dn = d
+                if dn is None or dn.get("init") is None:
+                    chk.unknown("D5", f.key, "scan-start", f.loc(), "returned variable '%s' has no initialiser" % V)
+                    return
+    subs = local_inits(f)
     it = render(dn["init"])
     if it.replace("bpp::", "") in ("NumTools::abs<double>(LU(0, 0))", "NumTools::abs(LU(0, 0))", "std::abs(LU(0, 0))", "std::fabs(LU(0, 0))", "fabs(LU(0, 0))"):
         chk.proved("D5", f.key, "scan-start", f.loc(), "minD starts at |LU(0,0)|")
@@ -458,15 +543,15 @@ def _d5(chk, fb, M):
         chk.refuted("D5", f.key, "scan-start", f.loc(), "the smallest-pivot scan starts from '%s' instead of |LU(0, 0)|" % it, witness={"input": "[[-3, 0],[0, 2]]"})
     else:
         chk.unknown("D5", f.key, "scan-start", f.loc(), "start value '%s' not recognised" % it)
-    ups = [n for n in _assigns(f) if render(kids(n)[0]) == "minD"]
+    ups = [n for n in _assigns(f) if render(kids(n)[0]) == V]
     if len(ups) != 1:
-        chk.refuted("D5", f.key, "scan-update", f.loc(), "minD is updated %d times" % len(ups))
+        chk.unknown("D5", f.key, "scan-update", f.loc(), "'%s' is updated %d times: not the recognised single running minimum" % (V, len(ups)))
         return
     u = ups[0]
     lp = f.enclosing(u, ("ForStmt",))
     iff = f.enclosing(u, ("IfStmt",))
     if lp is None or iff is None:
-        chk.refuted("D5", f.key, "scan-update", f.loc(u), "the update of minD is not a conditional inside the scan loop")
+        chk.unknown("D5", f.key, "scan-update", f.loc(u), "the update of '%s' is not a conditional inside a counted loop" % V)
         return
     rhs = strip(kids(u)[1])
     cand = render(rhs, subs)
@@ -496,8 +581,8 @@ def _d5(chk, fb, M):
     cond = strip(f.nodes[iff["cond"]])
     ct = render(cond)
     cname = render(rhs)
-    if cond["k"] == "BinaryOperator" and ((cond["op"] in ("<", "<=") and render(kids(cond)[0]) == cname and render(kids(cond)[1]) == "minD") or
-                                          (cond["op"] in (">", ">=") and render(kids(cond)[1]) == cname and render(kids(cond)[0]) == "minD")):
+    if cond["k"] == "BinaryOperator" and ((cond["op"] in ("<", "<=") and render(kids(cond)[0]) == cname and render(kids(cond)[1]) == V) or
+                                          (cond["op"] in (">", ">=") and render(kids(cond)[1]) == cname and render(kids(cond)[0]) == V)):
         chk.proved("D5", f.key, "scan-keeps-smaller", f.loc(u), ct)
     else:
         chk.refuted("D5", f.key, "scan-keeps-smaller", f.loc(u), "minD is replaced when '%s': the scan no longer keeps the smallest magnitude, so a near-singular matrix passes the threshold" % ct,
@@ -511,11 +596,8 @@ def _d5(chk, fb, M):
         else:
             chk.refuted("D5", f.key, "scan-range", f.loc(lp), "the smallest-pivot scan visits i in %s, not every diagonal entry: a zero pivot outside that range is not noticed and solve divides by it" % (rg,),
                         witness={"input": "diag(1, 1, 0)"})
-    rets = [n for n in walk(f.body) if n["k"] == "ReturnStmt" and kids(n)]
-    if rets and all(render(kids(r)[0]) == "minD" for r in rets):
-        chk.proved("D5", f.key, "returns-indicator", f.loc(rets[0]), "solve returns minD")
-    else:
-        chk.refuted("D5", f.key, "returns-indicator", f.loc(), "solve returns %s, not the smallest pivot magnitude" % [render(kids(r)[0]) for r in rets])
+    if f is solve:
+        chk.proved("D5", f.key, "returns-indicator", f.loc(rets0[0]), "solve returns %s" % V)
 
 
 # ------------------------------------------------------------------------------------------------ D6
@@ -558,11 +640,11 @@ def _d6(chk, fb, M):
             n_upd += 1
             construct = "update:" + render(u)
             if r["k"] != "BinaryOperator" or r["op"] != "*":
-                chk.refuted("D6", f.key, construct, f.loc(u), "the elimination update subtracts '%s', not a product of two entries" % render(r))
+                chk.unknown("D6", f.key, construct, f.loc(u), "the update subtracts '%s', which is not written as a product of two entries" % render(r))
                 continue
             p, q = _el(f, kids(r)[0]), _el(f, kids(r)[1])
             if p is None or q is None or len(p[1]) != 2 or len(q[1]) != 2:
-                chk.refuted("D6", f.key, construct, f.loc(u), "the elimination update subtracts '%s', not a product of two matrix entries" % render(r))
+                chk.unknown("D6", f.key, construct, f.loc(u), "a factor of '%s' is not (resolvable to) a matrix entry" % render(r))
                 continue
             a, b = t[1]
             ok = None
@@ -611,10 +693,24 @@ def _d6(chk, fb, M):
                 # multipliers: LU(i,k) /= LU(k,k), i > k, under LU(k,k) != 0
                 if t[0] == "LU" and t[1][1] == c and _loop_rel(fb, f, u, t[1][0], c) == "gt":
                     g = None
+                    piv_txt = "LU(%s, %s)" % (c, c)
+
+                    def est(facts, piv_txt=piv_txt):
+                        for text, truth, node in facts:
+                            tt = _R(f, node).replace(" ", "")
+                            pt = piv_txt.replace(" ", "")
+                            if tt in ("(%s!=0)" % pt, "(%s!=0.0)" % pt, "(0!=%s)" % pt, "(0.0!=%s)" % pt) and truth is True:
+                                return True
+                            if tt in ("(%s==0)" % pt, "(%s==0.0)" % pt, "(0==%s)" % pt, "(0.0==%s)" % pt) and truth is False:
+                                return True
+                        return False
+                    okg, _p = e1.guarded_by(f.cfg, f.cfg.stmt_block(u), est)
+                    if okg:
+                        g = "%s != 0" % piv_txt
                     for iff in f.ancestors(u):
-                        if iff["k"] == "IfStmt":
-                            ct = render(f.nodes[iff["cond"]])
-                            if "LU(%s, %s)" % (c, c) in ct and "!=" in ct:
+                        if g is None and iff["k"] == "IfStmt":
+                            ct = _R(f, f.nodes[iff["cond"]])
+                            if piv_txt in ct and "!=" in ct:
                                 g = ct
                     if g:
                         chk.proved("D6", f.key, construct, f.loc(u), "multipliers below the pivot, computed only when %s" % g)
@@ -680,7 +776,7 @@ def _d7(chk, fb, M):
         for w in ws:
             iff = f.enclosing(w, ("IfStmt",))
             ct = strip(f.nodes[iff["cond"]])
-            if ct["k"] == "BinaryOperator" and ct["op"] in (">", "<", ">=", "<=") and "LU(" in render(ct):
+            if ct["k"] == "BinaryOperator" and ct["op"] in (">", "<", ">=", "<=") and "LU(" in _R(f, ct):
                 piv = (d, w, iff, ct)
     if piv is None:
         raise AnalysisBroken("anchor vanished: pivot search in the constructor")
@@ -760,48 +856,101 @@ def _d7(chk, fb, M):
 # ------------------------------------------------------------------------------------------------ D8
 
 def _d8(chk, fb, M):
-    for nm, want in (("getL", {"(i > j)": "LU(i, j)", "(i == j)": "1", "else": "0"}), ("getU", {"(i <= j)": "LU(i, j)", "else": "0"})):
+    for nm in ("getL", "getU"):
         f = M[nm]
         tgtname = "L_" if nm == "getL" else "U_"
-        got = {}
-        for a in _assigns(f):
-            t = _el(f, kids(a)[0])
-            if t is None or t[0] != tgtname:
-                continue
-            conds = []
-            cur = a
-            for an in f.ancestors(a):
-                if an["k"] == "IfStmt":
-                    inthen = f.contains(f.nodes[an["then"]], a)
-                    conds.append((render(f.nodes[an["cond"]]), inthen))
-            key = " & ".join(("" if tr else "!") + c for c, tr in reversed(conds))
-            got[key] = (render(kids(a)[1]), t[1])
-        # evaluate on the three orderings of (i, j)
-        def val(order):
-            env = {"lt": dict(i=0, j=1), "eq": dict(i=1, j=1), "gt": dict(i=1, j=0)}[order]
-            for key, (rhs, idx) in got.items():
-                okk = True
-                for part in key.split(" & "):
-                    if not part:
-                        continue
-                    neg = part.startswith("!")
-                    c = part[1:] if neg else part
-                    try:
-                        v = eval(c.replace("(", "").replace(")", ""), {}, env)
-                    except Exception:
-                        return "?"
-                    if v == neg:
-                        okk = False
-                if okk:
-                    return rhs if idx == ["i", "j"] else "?idx"
+
+        def cond_val(c, env):
+            """truth of a comparison of the two loop indices under env; None when not such a comparison"""
+            c = strip(c)
+            if c["k"] == "UnaryOperator" and c.get("op") == "!":
+                v = cond_val(kids(c)[0], env)
+                return None if v is None else (not v)
+            if c["k"] == "BinaryOperator" and c["op"] in ("&&", "||"):
+                a_, b_ = cond_val(kids(c)[0], env), cond_val(kids(c)[1], env)
+                if a_ is None or b_ is None:
+                    return None
+                return (a_ and b_) if c["op"] == "&&" else (a_ or b_)
+            if c["k"] == "BinaryOperator" and c["op"] in ("<", "<=", ">", ">=", "==", "!="):
+                l, r = render(kids(c)[0]), render(kids(c)[1])
+                if l in env and r in env:
+                    x, y = env[l], env[r]
+                    return {"<": x < y, "<=": x <= y, ">": x > y, ">=": x >= y, "==": x == y, "!=": x != y}[c["op"]]
             return None
-        tab = {o: val(o) for o in ("lt", "eq", "gt")}
-        exp = {"lt": "0", "eq": "1", "gt": "LU(i, j)"} if nm == "getL" else {"lt": "LU(i, j)", "eq": "LU(i, j)", "gt": "0"}
-        norm = {k: (v[:-2] if isinstance(v, str) and v.endswith(".0") else v) for k, v in tab.items()}
+
+        def expr_val(e, env):
+            e = strip(e)
+            if e["k"] == "ConditionalOperator":
+                c = cond_val(kids(e)[0], env)
+                if c is None:
+                    return "?"
+                return expr_val(kids(e)[1] if c else kids(e)[2], env)
+            if e["k"] in ("CXXFunctionalCastExpr", "CXXStaticCastExpr", "CStyleCastExpr") and kids(e):
+                return expr_val(kids(e)[0], env)
+            t = render(e)
+            return t[:-2] if t.endswith(".0") else t
+
+        def stored(env):
+            """what the element (i, j) of the target receives under env: walk the assignments whose enclosing tests all hold"""
+            out = []
+            for a_ in _assigns(f):
+                t = _el(f, kids(a_)[0])
+                if t is None or t[0] != tgtname:
+                    continue
+                if t[1] != ["i", "j"]:
+                    return "?idx"
+                ok = True
+                for an in f.ancestors(a_):
+                    if an["k"] == "IfStmt":
+                        cv = cond_val(f.nodes[an["cond"]], env)
+                        if cv is None:
+                            return "?"
+                        inthen = f.contains(f.nodes[an["then"]], a_)
+                        if cv != inthen:
+                            ok = False
+                if ok:
+                    out.append(expr_val(kids(a_)[1], env))
+            return out[-1] if out else None
+        # loop variable names: the two counted loops around the assignments
+        names = []
+        for a_ in _assigns(f):
+            t = _el(f, kids(a_)[0])
+            if t and t[0] == tgtname:
+                names = t[1]
+                break
+        if len(names) != 2:
+            chk.unknown("D8", f.key, "triangle", f.loc(), "no element assignment of %s recognised" % tgtname)
+            continue
+        ri, ci = names
+        envs = {"lt": {ri: 0, ci: 1}, "eq": {ri: 1, ci: 1}, "gt": {ri: 1, ci: 0}}
+
+        def stored2(env):
+            # same as stored() but with the actual index names
+            out = []
+            for a_ in _assigns(f):
+                t = _el(f, kids(a_)[0])
+                if t is None or t[0] != tgtname:
+                    continue
+                if t[1] != [ri, ci]:
+                    return "?idx"
+                ok = True
+                for an in f.ancestors(a_):
+                    if an["k"] == "IfStmt":
+                        cv = cond_val(f.nodes[an["cond"]], env)
+                        if cv is None:
+                            return "?"
+                        if cv != f.contains(f.nodes[an["then"]], a_):
+                            ok = False
+                if ok:
+                    out.append(expr_val(kids(a_)[1], env))
+            return out[-1] if out else None
+        norm = {o: stored2(envs[o]) for o in ("lt", "eq", "gt")}
+        src = "LU(%s, %s)" % (ri, ci)
+        exp = {"lt": "0", "eq": "1", "gt": src} if nm == "getL" else {"lt": src, "eq": src, "gt": "0"}
         if norm == exp:
             chk.proved("D8", f.key, "triangle", f.loc(), "%s: %s" % (nm, norm))
-        elif "?" in norm.values() or "?idx" in norm.values():
-            chk.unknown("D8", f.key, "triangle", f.loc(), "selection not readable: %s" % got)
+        elif any(v in ("?", "?idx", None) for v in norm.values()):
+            chk.unknown("D8", f.key, "triangle", f.loc(), "selection not readable: %s" % norm)
         else:
             chk.refuted("D8", f.key, "triangle", f.loc(), "%s returns %s for (i<j, i==j, i>j); the %s factor is %s" % (nm, [norm[o] for o in ("lt", "eq", "gt")], "unit lower triangular" if nm == "getL" else "upper triangular", [exp[o] for o in ("lt", "eq", "gt")]),
                         witness={"input": "[[2,1],[1,3]]"})
@@ -812,7 +961,7 @@ def _d8(chk, fb, M):
         cfg = f.cfg
         A = f.params[0]["name"]
         thr = [n for n in walk(f.body) if n["k"] == "CXXThrowExpr"]
-        ctor = [n for n in f.all_nodes() if n["k"] in ("CXXConstructExpr", "CXXTemporaryObjectExpr") and n.get("callee", {}).get("cls") == LU]
+        ctor = [n for n in f.all_nodes() if n["k"] in ("CXXConstructExpr", "CXXTemporaryObjectExpr", "CXXFunctionalCastExpr") and n.get("callee", {}).get("cls") == LU]
         if not ctor:
             raise AnalysisBroken("anchor vanished: LUDecomposition built in %s" % f.name)
         okg = False
@@ -820,12 +969,14 @@ def _d8(chk, fb, M):
             iff = f.enclosing(t, ("IfStmt",))
             if iff is None:
                 continue
-            ct = render(f.nodes[iff["cond"]])
-            if ("isSquare(%s)" % A in ct and ct.startswith("!")) or ("getNumberOfRows" in ct and "getNumberOfColumns" in ct and "!=" in ct):
+            ct = _R(f, f.nodes[iff["cond"]])
+            if ("isSquare(%s)" % A in ct and (ct.startswith("!") or ct.startswith("(!"))) or ("getNumberOfRows" in ct and "getNumberOfColumns" in ct and "!=" in ct):
                 if all(cfg.dominates(cfg.stmt_block(f.nodes[iff["cond"]]), cfg.stmt_block(c)) for c in ctor) and "DimensionException" in (str(t.get("thrown")) + render(t)):
                     okg = True
         if okg:
             chk.proved("D8", f.key, "square-guard", f.loc(), "non-square input raises DimensionException before factorising")
+        elif thr and any("Dimension" in (str(t.get("thrown")) + render(t)) for t in thr):
+            chk.unknown("D8", f.key, "square-guard", f.loc(), "a DimensionException is thrown, but its test is not in a recognised form")
         else:
             chk.refuted("D8", f.key, "square-guard", f.loc(), "MatrixTools::%s factorises without first refusing a non-square matrix with DimensionException" % f.name, witness={"input": "a 2x3 matrix"})
         if any(render(f.args(c)[0]) != A for c in ctor if f.args(c)):
@@ -845,18 +996,24 @@ def _d8(chk, fb, M):
         ret_ok = any(f.contains(kids(r)[0], sv[0]) or strip(kids(r)[0]) is sv[0] for r in rets) or any(render(kids(r)[0], local_inits(f)) == render(sv[0], local_inits(f)) for r in rets)
         if ok and ret_ok:
             chk.proved("D8", f.key, "inverse-plumbing", f.loc(sv[0]), "inv = solve(identity(order of A), O), indicator returned")
+        elif a0 == idm and a1 == O and order in (A + ".getNumberOfRows()", A + ".getNumberOfColumns()") and not ret_ok:
+            chk.refuted("D8", f.key, "inverse-plumbing", f.loc(sv[0]), "inv solves A.X = I but does not return solve's indicator (the smallest pivot magnitude)", witness={"input": "[[2,0],[0,4]]"})
+        elif a0 == idm and a1 != O and a1 in [p_["name"] for p_ in f.params]:
+            chk.refuted("D8", f.key, "inverse-plumbing", f.loc(sv[0]), "inv writes the solution into '%s' instead of its output '%s'" % (a1, O), witness={"input": "[[2,0],[0,4]]"})
         else:
-            chk.refuted("D8", f.key, "inverse-plumbing", f.loc(sv[0]), "inv must solve A.X = I into its output and return solve's indicator: identity order '%s', solve(%s, %s), returned: %s" % (order, a0, a1, ret_ok),
-                        witness={"input": "[[2,0],[0,4]]"})
+            chk.unknown("D8", f.key, "inverse-plumbing", f.loc(sv[0]), "identity order '%s', solve(%s, %s), returned: %s: not in the recognised form" % (order, a0, a1, ret_ok))
     else:
-        chk.refuted("D8", f.key, "inverse-plumbing", f.loc(), "inv no longer is 'solve against the identity' (%d solve, %d getId calls)" % (len(sv), len(ids)), witness={"input": "[[2,0],[0,4]]"})
+        chk.unknown("D8", f.key, "inverse-plumbing", f.loc(), "inv is not written as one getId and one solve (%d solve, %d getId calls)" % (len(sv), len(ids)))
     f = det
     dc = [c for c in f.calls() if c["callee"]["name"] == "det" and c["callee"].get("cls") == LU]
     rets = [n for n in walk(f.body) if n["k"] == "ReturnStmt" and kids(n)]
-    if len(dc) == 1 and any(f.contains(kids(r)[0], dc[0]) or strip(kids(r)[0]) is dc[0] for r in rets) and all(render(kids(r)[0]) in ("lu.det()",) or strip(kids(r)[0]) is dc[0] for r in rets):
+    direct = [r for r in rets if strip(kids(r)[0]) is dc[0] or (is_call(strip(kids(r)[0])) and strip(kids(r)[0])["callee"]["name"] == "det" and strip(kids(r)[0])["callee"].get("cls") == LU)] if dc else []
+    if len(dc) == 1 and len(direct) == len(rets) and rets:
         chk.proved("D8", f.key, "det-plumbing", f.loc(dc[0]), "det(A) = LUDecomposition(A).det()")
-    else:
+    elif len(dc) == 1 and any(f.contains(kids(r)[0], dc[0]) and strip(kids(r)[0]) is not dc[0] and strip(kids(r)[0])["k"] in ("BinaryOperator", "UnaryOperator") for r in rets):
         chk.refuted("D8", f.key, "det-plumbing", f.loc(), "MatrixTools::det does not return the factorisation's determinant unchanged: %s" % [render(kids(r)[0]) for r in rets], witness={"input": "[[2,0],[0,4]]"})
+    else:
+        chk.unknown("D8", f.key, "det-plumbing", f.loc(), "returned expression(s) %s not in the recognised form" % [render(kids(r)[0]) for r in rets])
     # LU::det for a non-square factorisation returns 0 (documented)
     d = M["det"]
     g = False
